@@ -999,13 +999,12 @@ impl<'a, T: Clock, P: Props, F: Completion> SpanGuard<'a, T, P, F> {
     Set the default completion that will be called when the span is dropped or [`SpanGuard::complete`] is called.
     */
     pub fn with_completion<U: Completion>(mut self, completion: U) -> SpanGuard<'a, T, P, U> {
-        // Ensure this guard won't complete on drop
-        self.completion.take();
-
         SpanGuard {
             state: self.state.take(),
             data: self.data.take(),
-            completion: Some(completion),
+            // Taking the completion ensures this guard won't complete on drop
+            // A span disabled by the filter (`None`) stays disabled
+            completion: self.completion.take().map(|_| completion),
         }
     }
 
